@@ -1,5 +1,6 @@
 SPECIFICATION TSpec
 CONSTANT Threads <- TraceThreads
+VIEW TView
 CONSTRAINT HighWater
 POSTCONDITION Accepted
 CHECK_DEADLOCK FALSE
